@@ -132,12 +132,20 @@ func (p *Program) renamedLocalUncached(fn *ssa.Function, key, name string) strin
 		}
 		var cs []string
 		for _, e := range cur {
-			if e.Kind == base[bi].Kind && e.Type == base[bi].Type {
+			// unnamed cells are not source variables (the result slot go/ssa adds when a named result becomes an
+			// ordinary local that is returned): never a candidate
+			if e.Kind == base[bi].Kind && e.Type == base[bi].Type && e.Name != "" {
 				cs = append(cs, e.Name)
 			}
 		}
 		if len(cs) == nb {
 			cand = cs[k]
+		}
+	}
+	if os.Getenv("GOVC_DEBUG_RENAME") != "" {
+		fmt.Fprintf(os.Stderr, "rename %s: %s -> %q (base %d cells, now %d)\n", key, name, cand, len(base), len(cur))
+		for _, e := range cur {
+			fmt.Fprintf(os.Stderr, "   now: %s %s %s\n", e.Kind, e.Name, e.Type)
 		}
 	}
 	if cand == "" || cand == name || baseNames[cand] {
